@@ -1,5 +1,6 @@
 import CifModel.Lemmas.ParserTop
 import CifModel.Spec.Recovery
+import CifModel.Lemmas.ParserDefect
 /-
   Props/C12 — each class of input defect is reported with its code and recovered as documented (property C12), as theorems
   about the integrated parser model `Model.Parser.parse`.
@@ -49,6 +50,33 @@ theorem C12_first_report_is_policy_free (o : Opts) (pol : Policy) (pre : Cif) (u
     cases hx : x.2.reverse with
     | nil => rw [hx] at hA; simp at hA; simp [hA.1]
     | cons a b => rw [hx] at hA; simp at hA; simp [hA.1]
+
+/-! ### universally quantified class theorems (token level)
+
+  Setting of the four theorems below: ANY container under construction (data block or save frame: any `View` of the store), ANY
+  well-formed run of items `pre` in front of the defect and ANY well-formed run `post` behind it (scalar items and loops with lists /
+  tables of any depth, every presentation), the scanner entering through `Feeds` (it delivers the tokens of `pre`, of the defective
+  construct, of `post` and of what follows), accept-all callback.  Conclusion: the element loop of parse_container goes from the
+  first token of `pre` to the token behind `post` having logged EXACTLY ONE report `r` — `r.code` = the documented code of the class
+  — and the container holds exactly what the documented recovery prescribes: the items of `pre` and `post` as if nothing had
+  happened (content outside the defective construct unaffected) and the recovered construct between them.
+  (Line of the report: shown at the step level — `missing_value_step`: `r.line` = the scanner's line when the token FOLLOWING
+  the defect has been scanned; at document level it is checked by the `defect` oracle.) -/
+
+/-- **C12_missing_value** — a data name that is not followed by a value: CIF_MISSING_VALUE, the item gets the unknown value -/
+theorem C12_missing_value := @missing_value_run
+
+/-- **C12_unexpected_value** — a value (of any kind, nested lists / tables included) where an item is expected, not directly
+    behind a loop: CIF_UNEXPECTED_VALUE, the value is parsed and ignored -/
+theorem C12_unexpected_value := @unexpected_value_run
+
+/-- **C12_dup_itemname** — a data name whose normalised form is already defined in the container (as a scalar or in a loop,
+    in any spelling): CIF_DUP_ITEMNAME, the name and its value are parsed and dropped -/
+theorem C12_dup_itemname := @dup_name_run
+
+/-- **C12_empty_loop** — a loop header (≥ 1 valid, new, pairwise distinct names) followed by no value: CIF_EMPTY_LOOP, the loop
+    is accepted without packets (parse_container prunes it when the container ends) -/
+theorem C12_empty_loop := @empty_loop_run
 
 /-- the universal per-class statement (not proved): for every host, position and layout, the planted document's accept-all
     parse has the class's code first, at a line between the defect and the following token, and the documented content -/
